@@ -6,7 +6,7 @@ import numpy
 
 from vlib import PROPS
 import nonshear_harness as H
-from props import c01
+from props import c01, nonshear_static
 
 
 def shear_part(ctx, n):
@@ -22,7 +22,13 @@ def shear_part(ctx, n):
         c = H.make_case(rng, nq=rng.choice([1, 2]), na=1, nv=2)
         calc = H.duck_calculator(c)
         strain = numpy.array([[rng.uniform(0.2, 0.5) for _ in range(3)] for _ in range(c["nv"])])
+        if i % 3 == 1:      # cubic-like: equal strain fractions, rotated-frame tasks coincide with requested ones
+            strain = numpy.full((c["nv"], 3), 1.0 / 3.0)
+        elif i % 3 == 2:    # two equal axes (tetragonal / hexagonal-like)
+            strain[:, 1] = strain[:, 0]
         keys = rng.sample(allk, rng.randint(2, 8))
+        if i % 2 == 0:      # a diagonal component together with a mixed key that depends on it
+            keys = list(dict.fromkeys(keys + [(1, 1), rng.choice([(1, 5), (1, 4), (1, 6)])]))
         if not any(k[0] > 3 or k[1] > 3 for k in keys):
             keys.append(rng.choice(allk[6:]))
         try:
@@ -51,6 +57,24 @@ def shear_part(ctx, n):
             else:
                 if numpy.nanmax(numpy.abs(a - b)) > 0:
                     nonshear_differs = True
+                # the gap a REQUESTED non-shear component gets from the task list is the gap of its own contribution
+                # object (whose formula the shards above tie to the model), whatever other tasks it was merged with
+                import cij.core.phonon_contribution.nonshear as NS
+                tot = numpy.sum(strain, axis=1)          # the task list normalises the axial strains to fractions
+                ei, ej = strain[:, k[0] - 1] / tot, strain[:, k[1] - 1] / tot
+                cls = NS.LongitudinalElasticModulusPhononContribution if k[0] == k[1] else \
+                    NS.OffDiagonalElasticModulusPhononContribution
+                with numpy.errstate(all="ignore"):
+                    want = numpy.asarray(cls(calc, (ei, ej)).isothermal_to_adiabatic)
+                got = a - b
+                tol = 1e-9 * max(float(numpy.nanmax(numpy.abs(want))), 1e-300) + 1e-13 * float(numpy.nanmax(numpy.abs(a)))
+                if got.shape != want.shape or not numpy.all(numpy.abs(got - want) <= tol):
+                    ctx.failure("tasklist-gap-c%d%d" % k,
+                                "adiabatic - isothermal of requested component c%d%d from the task list (max %.6g) is not "
+                                "the gap T V (dP/dT)^2/(9 ei ej Cv) of that component (max %.6g)"
+                                % (k[0], k[1], float(numpy.nanmax(numpy.abs(got))), float(numpy.nanmax(numpy.abs(want)))),
+                                input=dict(keys=keys, strain=strain.tolist(), temps=c["temps"], key=k),
+                                expected=want.tolist(), observed=got.tolist())
         ctx.count("tasklist runs where non-shear adiabatic != isothermal", int(nonshear_differs))
 
 
@@ -99,10 +123,13 @@ def run(ctx):
     ]
     shutil.copy(PROPS / "Prop_C02.v", rd / "Prop_C02.v")
     ctx.prove(rd / "Prop_C02.v", "Prop_C02.v (gap theorems over R)", "theorem-file", timeout=1800)
-    n = 30 if ctx.tier == "quick" else 250
+    # static tie: model = code text (regenerated + re-proved on every run); failing inputs are searched below
+    nonshear_static.static_tie(ctx, rd, groups=nonshear_static.C02_GROUPS)
+    n = 30 if ctx.tier == "quick" else 1200
     cases, meta, consts = c01.build_cases(ctx, n)
     files = c01.shards(ctx, rd, cases, 20, tag="C02")
     res = ctx.run_shards(files, label="nonshear tie (gap, adiabatic)")
+    nonshear_static.float_shards(ctx, rd, cases, "C02")
     bad = []
     for fi, f in enumerate(files):
         ok, fl, out = res[f]
@@ -113,4 +140,4 @@ def run(ctx):
                         cv=c["cv"], gap=obs["gap"].tolist()))
     order = [meta[i] for i in bad if i < len(meta)] + meta
     oracle(ctx, order, len(bad) + (5 if ctx.tier == "quick" else 30))
-    shear_part(ctx, 6 if ctx.tier == "quick" else 40)
+    shear_part(ctx, 6 if ctx.tier == "quick" else 200)
